@@ -1,6 +1,7 @@
 """C10 - TaxonNamespace: stable one-to-one taxon/bit map, exact label lookups."""
 import copy
 import random
+import warnings
 
 from dv import core
 from dv.core import cz, cbool, clist, copt, cpair
@@ -15,79 +16,230 @@ POOLS = [
 ]
 
 
+class _Sim(object):
+    """Naive re-implementation of the namespace bookkeeping, used ONLY to steer the generator
+    towards interesting states (members, live bits, matching labels). If it were wrong the
+    cases would merely become less interesting: nothing is compared against it."""
+
+    def __init__(self, pool, free, cs):
+        self.pool = pool
+        self.nobj = len(free)
+        self.label = {i: l for i, l in enumerate(free)}
+        self.members = []
+        self.idx = {}
+        self.count = 0
+        self.mutable = True
+        self.cs = cs
+
+    def match(self, l, cs):
+        c = self.cs if cs is None else cs
+        p = self.pool
+        if c:
+            return [t for t in self.members if p[self.label[t]] == p[l]]
+        return [t for t in self.members if p[self.label[t]].lower() == p[l].lower()]
+
+    def _add(self, t):
+        if t in self.idx or not self.mutable:
+            return
+        self.members.append(t)
+        self.idx[t] = self.count
+        self.count += 1
+
+    def _new(self, l):
+        if not self.mutable:
+            return
+        t = self.nobj
+        self.nobj += 1
+        self.label[t] = l
+        self._add(t)
+
+    def _remove(self, t):
+        if t in self.members:
+            self.members.remove(t)
+            self.idx.pop(t, None)
+
+    def apply(self, op):
+        n = op[0]
+        if n == "NewTaxon":
+            self._new(op[1])
+        elif n == "NewTaxa":
+            for l in op[1]:
+                self._new(l)
+        elif n == "RequireTaxon":
+            if not self.match(op[1], op[2]):
+                self._new(op[1])
+        elif n == "AddTaxon":
+            if op[1] < self.nobj:
+                self._add(op[1])
+        elif n == "RemoveTaxon":
+            self._remove(op[1])
+        elif n in ("RemoveLabel", "DiscardLabel"):
+            m = self.match(op[1], op[2])
+            for t in (m[:1] if op[3] else m):
+                self._remove(t)
+        elif n == "Clear":
+            self.members = []
+            self.idx = {}
+        elif n == "Sort":
+            self.members.sort(key=lambda t: self.pool[self.label[t]], reverse=op[1])
+        elif n == "Reverse":
+            self.members.reverse()
+        elif n == "Relabel":
+            if op[1] < self.nobj:
+                self.label[op[1]] = op[2]
+        elif n == "SetMutable":
+            self.mutable = op[1]
+        elif n == "SetCS":
+            self.cs = op[1]
+        elif n == "DeepCopy":
+            new = {}
+            for t in self.members:
+                new[t] = self.nobj
+                self.label[self.nobj] = self.label[t]
+                self.nobj += 1
+            self.idx = {new[t]: self.idx[t] for t in self.members}
+            self.members = [new[t] for t in self.members]
+
+
 def gen_case(rng, maxlen):
     pool = sorted(set(rng.choice(POOLS)))
     nfree = rng.randint(0, 4)
     free = [rng.randrange(len(pool)) for _ in range(nfree)]
     cs = rng.random() < 0.4
     n = rng.randint(1, maxlen)
+    sim = _Sim(pool, free, cs)
     ops = []
-    # tids that may exist: free 0..nfree-1 plus created ones; we draw tids from a growing bound
-    est = nfree
-    for _ in range(n):
-        k = rng.random()
-        L = lambda: rng.randrange(len(pool))
-        CS = lambda: rng.choice([None, None, True, False])
-        T = lambda: rng.randrange(max(1, est + 1))
-        if k < 0.16:
-            ops.append(["NewTaxon", L()]); est += 1
-        elif k < 0.22:
-            ls = [L() for _ in range(rng.randint(0, 3))]
-            ops.append(["NewTaxa", ls]); est += len(ls)
-        elif k < 0.30:
-            ops.append(["RequireTaxon", L(), CS()]); est += 1
-        elif k < 0.36:
-            ops.append(["AddTaxon", T()])
-        elif k < 0.43:
-            ops.append(["RemoveTaxon", T()])
-        elif k < 0.48:
-            ops.append(["RemoveLabel", L(), CS(), rng.random() < 0.5])
-        elif k < 0.53:
-            ops.append(["DiscardLabel", L(), CS(), rng.random() < 0.5])
-        elif k < 0.55:
-            ops.append(["Clear"])
-        elif k < 0.60:
-            ops.append(["Sort", rng.random() < 0.4])
-        elif k < 0.63:
-            ops.append(["Reverse"])
-        elif k < 0.68:
-            ops.append(["Relabel", T(), L()])
-        elif k < 0.71:
-            ops.append(["GetTaxon", L(), CS()])
-        elif k < 0.75:
-            ops.append(["FindAll", L(), CS()])
-        elif k < 0.77:
-            ops.append(["HasLabel", L(), CS()])
-        elif k < 0.79:
-            ops.append(["HasLabels", [L() for _ in range(rng.randint(0, 3))], CS()])
-        elif k < 0.82:
-            ops.append(["GetTaxa", [L() for _ in range(rng.randint(0, 3))], CS(), rng.random() < 0.5])
-        elif k < 0.85:
-            ops.append(["TaxonBitmask", T()])
-        elif k < 0.88:
-            ops.append(["TaxaBitmask", [T() for _ in range(rng.randint(0, 3))]])
-        elif k < 0.89:
-            ops.append(["AllBitmask"])
-        elif k < 0.92:
-            ops.append(["BitmaskTaxa", rng.getrandbits(rng.randint(0, est + 2))])
-        elif k < 0.93:
-            ops.append(["AccIndex", T()])
-        elif k < 0.96:
-            ops.append(["NewickGroups", rng.getrandbits(rng.randint(0, est + 1))])
-        elif k < 0.97:
-            ops.append(["SetMutable", rng.random() < 0.5])
-        elif k < 0.98:
-            ops.append(["SetCS", rng.random() < 0.5])
-        elif k < 0.99:
-            ops.append(["CopyConstruct"])
+    pending = []
+
+    def L():
+        # a label that is present (possibly as a case variant) 60% of the time
+        if sim.members and rng.random() < 0.6:
+            l = sim.label[rng.choice(sim.members)]
+            if rng.random() < 0.4:
+                vs = [i for i, s in enumerate(pool) if s.lower() == pool[l].lower()]
+                l = rng.choice(vs)
+            return l
+        return rng.randrange(len(pool))
+
+    def CS():
+        return rng.choice([None, None, True, False])
+
+    def T():
+        r = rng.random()
+        if sim.members and r < 0.65:
+            return rng.choice(sim.members)
+        if sim.nobj and r < 0.97:
+            return rng.randrange(sim.nobj)
+        return rng.randrange(sim.nobj + 2)      # may not exist yet: the harness skips the op
+
+    def live_subset():
+        live = [sim.idx[t] for t in sim.members]
+        k = rng.randint(0, len(live))
+        m = 0
+        for i in rng.sample(live, k):
+            m |= 1 << i
+        return m
+
+    def mask():
+        r = rng.random()
+        allm = (1 << sim.count) - 1
+        if r < 0.55:
+            return live_subset()
+        if r < 0.70:
+            return rng.getrandbits(rng.randint(0, sim.count + 2))
+        if r < 0.78:
+            return 0
+        if r < 0.88:
+            return allm
+        if r < 0.94:
+            return allm & ~live_subset()
+        return live_subset() | (1 << rng.randint(0, sim.count + 1))
+
+    if rng.random() < 0.7:
+        # start from a populated namespace
+        pending.append(["NewTaxa", [rng.randrange(len(pool)) for _ in range(rng.randint(2, 7))]])
+    while len(ops) < n:
+        if pending:
+            op = pending.pop(0)
         else:
-            ops.append(["DeepCopy"]); est += est
+            k = rng.random()
+            if k < 0.14:
+                op = ["NewTaxon", L()]
+            elif k < 0.19:
+                op = ["NewTaxa", [L() for _ in range(rng.randint(0, 3))]]
+            elif k < 0.27:
+                op = ["RequireTaxon", L(), CS()]
+            elif k < 0.32:
+                op = ["AddTaxon", T(), rng.randrange(3)]
+            elif k < 0.375:
+                op = ["RemoveTaxon", T(), rng.randrange(3)]
+            elif k < 0.41:
+                op = ["RemoveLabel", L(), CS(), rng.random() < 0.6]
+            elif k < 0.445:
+                op = ["DiscardLabel", L(), CS(), rng.random() < 0.6]
+            elif k < 0.452:
+                op = ["Clear"]
+            elif k < 0.505:
+                op = ["NewTaxon", L()]
+            elif k < 0.555:
+                op = ["Sort", rng.random() < 0.4]
+            elif k < 0.585:
+                op = ["Reverse"]
+            elif k < 0.635:
+                op = ["Relabel", T(), rng.randrange(len(pool))]
+            elif k < 0.665:
+                op = ["GetTaxon", L(), CS()]
+            elif k < 0.705:
+                op = ["FindAll", L(), CS()]
+            elif k < 0.725:
+                op = ["HasLabel", L(), CS()]
+            elif k < 0.745:
+                op = ["HasLabels", [L() for _ in range(rng.randint(0, 3))], CS()]
+            elif k < 0.775:
+                op = ["GetTaxa", [L() for _ in range(rng.randint(0, 3))], CS(), rng.random() < 0.5]
+            elif k < 0.805:
+                op = ["TaxonBitmask", T()]
+            elif k < 0.845:
+                r = rng.random()
+                if sim.members and r < 0.7:
+                    ts = rng.sample(sim.members, rng.randint(0, min(4, len(sim.members))))
+                elif sim.members and r < 0.85:
+                    ts = [rng.choice(sim.members) for _ in range(rng.randint(1, 4))]
+                else:
+                    ts = [T() for _ in range(rng.randint(0, 3))]
+                op = ["TaxaBitmask", ts, rng.randrange(2)]
+                if all(t in sim.idx for t in ts) and rng.random() < 0.6:
+                    m = 0
+                    for t in ts:
+                        m |= 1 << sim.idx[t]
+                    pending.append(["BitmaskTaxa", m])          # the round trip
+            elif k < 0.855:
+                op = ["AllBitmask"]
+            elif k < 0.885:
+                op = ["BitmaskTaxa", mask()]
+            elif k < 0.895:
+                op = ["AccIndex", T()]
+            elif k < 0.945:
+                op = ["NewickGroups", mask(), rng.randrange(2)]
+            elif k < 0.958:
+                op = ["SetMutable", rng.random() < 0.5]
+            elif k < 0.97:
+                op = ["SetCS", rng.random() < 0.5]
+            elif k < 0.985:
+                op = ["CopyConstruct", rng.randrange(2)]
+            else:
+                op = ["DeepCopy"]
+        ops.append(op)
+        sim.apply(op)
     return {"pool": pool, "free": free, "cs": cs, "ops": ops}
 
 
 def observe(case):
     """Run the op history on the real TaxonNamespace. Returns list of [out, state]."""
     import dendropy
+    from dendropy.utility import deprecate
+    if deprecate.DEPRECATION_WARNING_FILTER != "ignore":
+        deprecate.configure_deprecation_warning_behavior("ignore")     # ns.remove() is a deprecated spelling
     pool = case["pool"]
     objs = []          # tid -> Taxon
     tid = {}           # id(obj) -> tid
@@ -111,7 +263,14 @@ def observe(case):
                     # a tid that does not exist yet: model treats it as a fresh foreign object;
                     # create it now so both sides agree (label: none needed -> use pool[0])
                     raise core_skip()
-                ns.add_taxon(objs[op[1]]); out = ["OUnit"]
+                v = op[2] if len(op) > 2 else 0
+                if v == 1:
+                    ns.append(objs[op[1]])
+                elif v == 2:
+                    ns.add_taxa([objs[op[1]]])
+                else:
+                    ns.add_taxon(objs[op[1]])
+                out = ["OUnit"]
             elif name == "NewTaxon":
                 t = ns.new_taxon(pool[op[1]]); out = ["OTax", reg(t)]
             elif name == "NewTaxa":
@@ -121,7 +280,18 @@ def observe(case):
             elif name == "RemoveTaxon":
                 if op[1] >= len(objs):
                     raise core_skip()
-                ns.remove_taxon(objs[op[1]]); out = ["OUnit"]
+                v = op[2] if len(op) > 2 else 0
+                o = objs[op[1]]
+                pos = [i for i, t in enumerate(ns) if t is o]
+                if v == 1 and pos:
+                    del ns[pos[0]]
+                elif v == 2:
+                    with warnings.catch_warnings():
+                        warnings.simplefilter("ignore")
+                        ns.remove(o)
+                else:
+                    ns.remove_taxon(o)
+                out = ["OUnit"]
             elif name == "RemoveLabel":
                 ns.remove_taxon_label(pool[op[1]], is_case_sensitive=op[2], first_match_only=op[3]); out = ["OUnit"]
             elif name == "DiscardLabel":
@@ -153,7 +323,10 @@ def observe(case):
             elif name == "TaxaBitmask":
                 if any(i >= len(objs) for i in op[1]):
                     raise core_skip()
-                out = ["OInt", ns.taxa_bitmask(taxa=[objs[i] for i in op[1]])]
+                if len(op) > 2 and op[2] == 1:
+                    out = ["OInt", ns.get_taxa_bitmask(taxa=[objs[i] for i in op[1]])]
+                else:
+                    out = ["OInt", ns.taxa_bitmask(taxa=[objs[i] for i in op[1]])]
             elif name == "AllBitmask":
                 out = ["OInt", ns.all_taxa_bitmask()]
             elif name == "BitmaskTaxa":
@@ -163,14 +336,21 @@ def observe(case):
                     raise core_skip()
                 out = ["OInt", ns.accession_index(objs[op[1]])]
             elif name == "NewickGroups":
-                s = ns.bitmask_as_newick_string(op[1])
+                if len(op) > 2 and op[2] == 1:
+                    s = ns.split_as_newick_string(op[1])
+                else:
+                    s = ns.bitmask_as_newick_string(op[1])
                 out = parse_groups(s, pool)
             elif name == "SetMutable":
                 ns.is_mutable = op[1]; out = ["OUnit"]
             elif name == "SetCS":
                 ns.is_case_sensitive = op[1]; out = ["OUnit"]
             elif name == "CopyConstruct":
-                ns = dendropy.TaxonNamespace(ns); out = ["OUnit"]
+                if len(op) > 1 and op[1] == 1:
+                    ns = copy.copy(ns)
+                else:
+                    ns = dendropy.TaxonNamespace(ns)
+                out = ["OUnit"]
             elif name == "DeepCopy":
                 ns = copy.deepcopy(ns)
                 for t in ns:
@@ -183,7 +363,12 @@ def observe(case):
         except Exception as e:
             out = ["OErr", core.exc_enum(e)]
         state = [[reg(t), ns.accession_index(t)] for t in ns]
-        res.append([out, state, [pool.index(t.label) for t in ns], bool(ns.is_mutable), bool(ns.is_case_sensitive)])
+        # container protocol agrees with the member list (checked by the oracle)
+        proto = bool(len(ns) == len(state) and all(t in ns for t in ns)
+                     and all(ns[i] is t for i, t in enumerate(ns))
+                     and [reg(t) for t in reversed(ns)] == [x[0] for x in reversed(state)]
+                     and not any(o in ns for o in objs if not any(o is t for t in ns)))
+        res.append([out, state, [pool.index(t.label) for t in ns], bool(ns.is_mutable), bool(ns.is_case_sensitive), proto])
     return res
 
 
@@ -218,7 +403,11 @@ def oracle(case, obs):
     labels = {i: pool[l] for i, l in enumerate(case["free"])}
     mutable = True
     cs_ns = case["cs"]
-    for step, (op, (out, state, labs, is_mut, is_cs)) in enumerate(zip(ops, ob)):
+    seen = set(range(len(case["free"])))
+    for step, (op, rec) in enumerate(zip(ops, ob)):
+        out, state, labs, is_mut, is_cs = rec[:5]
+        if len(rec) > 5 and not rec[5]:
+            return ("len / in / [] / reversed of the namespace disagree with its member list after step %d %s" % (step, op), "container-protocol")
         name = op[0]
         idx = {}
         for t, i in state:
@@ -233,6 +422,10 @@ def oracle(case, obs):
         else:
             if [i for _, i in state] != [prev[t] for t in prev_members]:
                 return ("deep copy changed the bits of the copied taxa at step %d" % step, "deepcopy-bits")
+            if [pool[l] for l in labs] != [labels[t] for t in prev_members]:
+                return ("deep copy changed the labels of the copied taxa at step %d" % step, "deepcopy-labels")
+            if set(t for t, _ in state) & seen:
+                return ("deep copy shares a Taxon object with its original at step %d" % step, "deepcopy-shared")
         if not mutable and name not in ("SetMutable", "DeepCopy", "CopyConstruct"):
             if set(members) - set(prev_members):
                 return ("immutable namespace gained a member at step %d %s" % (step, op), "immutable-grew")
@@ -244,6 +437,43 @@ def oracle(case, obs):
             c = cs_ns if cs is None else cs
             return [t for t in prev_members if (labels[t] == pool[l] if c else labels[t].lower() == pool[l].lower())]
 
+        if name == "CopyConstruct" and (out != ["OUnit"] or members != prev_members or idx != prev):
+            return ("copy of the namespace differs in members or bits at step %d" % step, "copy-bits")
+        if name == "Sort" and members != sorted(prev_members, key=lambda t: labels[t], reverse=op[1]):
+            return ("sort did not order the members by label (stable) at step %d" % step, "sort-order")
+        if name == "Reverse" and members != prev_members[::-1]:
+            return ("reverse did not reverse the member order at step %d" % step, "reverse-order")
+        if name == "Clear" and members:
+            return ("clear left members behind at step %d" % step, "clear")
+        if name == "RemoveTaxon":
+            if op[1] in prev_members:
+                if out != ["OUnit"] or members != [t for t in prev_members if t != op[1]]:
+                    return ("remove_taxon(%d) removed %s (out %s) at step %d" % (op[1], [t for t in prev_members if t not in members], out, step), "remove-taxon")
+            elif out != ["OErr", "ValueErr"] or members != prev_members:
+                return ("remove_taxon of a non-member: %s, members changed: %s (step %d)" % (out, members != prev_members, step), "remove-nonmember")
+        if name == "AccIndex":
+            if out != (["OInt", prev[op[1]]] if op[1] in prev else ["OErr", "KeyErr"]):
+                return ("accession_index(%d) = %s at step %d" % (op[1], out, step), "accession-index")
+        if name == "HasLabel" and out != ["OBool", bool(match(op[1], op[2]))]:
+            return ("has_taxon_label returned %s, matching members are %s (step %d %s)" % (out, match(op[1], op[2]), step, op), "has-label")
+        if name == "HasLabels" and out != ["OBool", all(bool(match(l, op[2])) for l in op[1])]:
+            return ("has_taxa_labels returned %s (step %d %s)" % (out, step, op), "has-labels")
+        if name == "GetTaxa":
+            want = []
+            for l in op[1]:
+                m = match(l, op[2])
+                if op[3]:
+                    want.extend(m[:1])
+                else:
+                    want.extend(t for t in m if t not in want)
+            if out != ["OTaxa", want]:
+                return ("get_taxa returned %s, expected %s (step %d %s)" % (out, want, step, op), "get-taxa")
+        if name in ("NewTaxon", "NewTaxa") and mutable:
+            k = 1 if name == "NewTaxon" else len(op[1])
+            new = members[len(prev_members):]
+            if members[:len(prev_members)] != prev_members or len(new) != k or set(new) & seen \
+                    or [labels[t] for t in new] != [pool[l] for l in ([op[1]] if name == "NewTaxon" else op[1])]:
+                return ("%s did not append exactly the new taxa (step %d %s)" % (name, step, op), "new-taxon")
         if name == "FindAll" and out[0] == "OTaxa":
             if out[1] != match(op[1], op[2]):
                 return ("findall returned %s, members matching are %s (step %d %s)" % (out[1], match(op[1], op[2]), step, op), "findall")
@@ -265,17 +495,23 @@ def oracle(case, obs):
                 gone = m[:1] if op[3] else m
                 if out != ["OUnit"] or members != [t for t in prev_members if t not in gone]:
                     return ("%s removed %s instead of %s (out %s) at step %d" % (name, [t for t in prev_members if t not in members], gone, out, step), "remove-label")
-        if name == "BitmaskTaxa" and out[0] == "OTaxa":
-            bits = sorted(idx[t] for t in out[1] if t in idx)
+        if name == "BitmaskTaxa":
             want = [i for i in range(op[1].bit_length()) if (op[1] >> i) & 1]
-            if bits != want or len(out[1]) != len(want):
-                return ("bitmask_taxa_list(%d) returned taxa with bits %s" % (op[1], bits), "bitmask-taxa")
-        if name == "TaxaBitmask" and out[0] == "OInt":
-            want = 0
-            for t in op[1]:
-                want |= 1 << idx[t]
-            if out[1] != want:
-                return ("taxa_bitmask returned %d, expected %d" % (out[1], want), "taxa-bitmask")
+            if out[0] == "OTaxa":
+                bits = [idx.get(t) for t in out[1]]
+                if bits != want:
+                    return ("bitmask_taxa_list(%d) returned taxa with bits %s" % (op[1], bits), "bitmask-taxa")
+            elif all(i in idx.values() for i in want):
+                return ("bitmask_taxa_list(%d) failed with %s although every bit belongs to a member" % (op[1], out), "bitmask-taxa-error")
+        if name == "TaxaBitmask":
+            if all(t in idx for t in op[1]):
+                want = 0
+                for t in op[1]:
+                    want |= 1 << idx[t]
+                if out != ["OInt", want]:
+                    return ("taxa_bitmask returned %s, expected %d" % (out, want), "taxa-bitmask")
+            elif out != ["OErr", "KeyErr"]:
+                return ("taxa_bitmask with a non-member returned %s" % (out,), "taxa-bitmask-nonmember")
         if name == "TaxonBitmask" and out[0] == "OInt":
             if op[1] not in idx or out[1] != 1 << idx[op[1]]:
                 return ("taxon_bitmask(%d) = %d is not the single bit of its accession index" % (op[1], out[1]), "single-bit")
@@ -286,6 +522,9 @@ def oracle(case, obs):
                 return ("bitmask_as_newick_string(%d) names %s | %s, the taxa with those bits are %s | %s" % (op[1], out[1], out[2], left, right), "newick-groups")
         if name == "Relabel":
             labels[op[1]] = pool[op[2]]
+        seen.update(members)
+        if out[0] in ("OTax",) and out[1] is not None:
+            seen.add(out[1])
         prev = idx
         prev_members = members
         mutable = is_mut
@@ -358,7 +597,7 @@ def to_coq(case, obs):
             pairs.append((i, low[l]))
     lower = clist([cpair(cz(a), cz(b)) for a, b in pairs])
     free = clist([cpair(cz(i), cz(l)) for i, l in enumerate(case["free"])])
-    exp = clist([cpair(c_out(o), clist([cpair(cz(t), cz(i)) for t, i in st])) for o, st, _l, _m, _c in ob])
+    exp = clist([cpair(c_out(o), clist([cpair(cz(t), cz(i)) for t, i in st])) for o, st, *_ in ob])
     return "(mkCase %s %s %s %s %s)" % (lower, free, cbool(case["cs"]), clist([c_op(o) for o in ops]), exp)
 
 
@@ -368,17 +607,23 @@ def nontrivial(case, obs):
 
 
 def exhaustive_cases():
-    """every op sequence of length <= 3 over a small op alphabet and a 3-label pool"""
+    """every op sequence of length <= 3 over a 24-op alphabet, and every sequence of length 4 over
+    an 11-op alphabet, on the 3-label pool A/a/b with one free Taxon object"""
     import itertools
     pool = ["A", "a", "b"]
     alpha = [["NewTaxon", 0], ["NewTaxon", 1], ["NewTaxon", 2], ["RequireTaxon", 0, None], ["RequireTaxon", 1, True],
              ["RemoveTaxon", 0], ["RemoveTaxon", 1], ["RemoveLabel", 1, None, True], ["DiscardLabel", 0, False, False],
              ["Clear"], ["Sort", False], ["Sort", True], ["Reverse"], ["Relabel", 0, 2], ["FindAll", 0, None],
              ["TaxonBitmask", 0], ["BitmaskTaxa", 3], ["NewickGroups", 2], ["SetMutable", False], ["DeepCopy"], ["CopyConstruct"],
-             ["AddTaxon", 0]]
+             ["AddTaxon", 0], ["TaxaBitmask", [1, 0]], ["GetTaxa", [0, 2], None, False]]
     for n in (1, 2, 3):
         for seq in itertools.product(alpha, repeat=n):
             yield {"pool": pool, "free": [2], "cs": False, "ops": [list(o) for o in seq]}
+    alpha4 = [["NewTaxon", 0], ["NewTaxon", 1], ["RequireTaxon", 0, None], ["AddTaxon", 0], ["RemoveTaxon", 1],
+              ["RemoveLabel", 1, None, True], ["Sort", False], ["DeepCopy"], ["NewickGroups", 2], ["BitmaskTaxa", 5],
+              ["Clear"]]
+    for seq in itertools.product(alpha4, repeat=4):
+        yield {"pool": pool, "free": [2], "cs": True, "ops": [list(o) for o in seq]}
 
 
 def search(ctx, budget_s):
@@ -422,8 +667,33 @@ def run(tier, seed, replay=None):
     for c in cases:
         for o in c["ops"]:
             ctx.count(o[0])
-    core.corr_stage(ctx, cases, observe, to_coq, HEADER, "case_ok", oracle=oracle,
+
+    def observe_counted(case):
+        obs = observe(case)
+        vac = dup = perm = False
+        for op, rec in zip(case["ops"], obs):
+            out, state = rec[0], rec[1]
+            ctx.count("outcome:%s:%s" % (op[0], out[1] if out[0] == "OErr" else ("skipped" if out[0] == "SKIP" else "ok")))
+            ix = [i for _t, i in state]
+            vac = vac or (bool(ix) and len(ix) <= max(ix))
+            dup = dup or len(set(rec[2])) < len(rec[2])
+            perm = perm or ix != sorted(ix)
+            if op[0] == "NewickGroups" and out[0] == "OGroups" and (ix != sorted(ix) or (ix and len(ix) <= max(ix))):
+                ctx.count("newick rendering where list position <> bit")
+            if op[0] == "BitmaskTaxa" and out[0] == "OTaxa" and len(out[1]) >= 2:
+                ctx.count("bitmask_taxa_list returning >= 2 taxa")
+        ctx.count("history size %s" % ("1-5" if len(obs) <= 5 else "6-15" if len(obs) <= 15 else "16-30" if len(obs) <= 30 else "31+"))
+        ctx.count("max members %d" % min(9, max([len(r[1]) for r in obs] or [0])))
+        if vac:
+            ctx.count("history reaches a vacated index")
+        if dup:
+            ctx.count("history reaches duplicate labels")
+        if perm:
+            ctx.count("history reaches member order <> bit order")
+        return obs
+
+    core.corr_stage(ctx, cases, observe_counted, to_coq, HEADER, "case_ok", oracle=oracle,
                     show_fn="case_run", nontrivial=nontrivial, search=search, shard=250,
                     sample_fn=lambda c, o: {"ops": c["ops"][:8], "pool": c["pool"], "last_state": normalise(c, o)[1][-1][1] if normalise(c, o)[1] else None})
     return ctx.finish(level="proof",
-                      rule="random op histories (<=25 quick / <=60 thorough ops) over label pools with duplicates and case variants, both case settings; thorough adds every history of length <=3 over a 22-op alphabet; a case is non-trivial when it has >=3 executed ops and reaches a namespace with >=2 members; distinct by full case content")
+                      rule="random op histories (<=25 quick / <=60 thorough ops) drawn by a state-aware generator (operands mostly members / present labels incl. case variants / subsets of live bits; taxa_bitmask followed by bitmask_taxa_list of its result) over label pools with duplicates and case variants, both case settings, several API spellings per op (append/add_taxa, del ns[i]/remove, copy.copy, split_as_newick_string, get_taxa_bitmask); thorough adds every history of length <=3 over a 24-op alphabet and every history of length 4 over an 11-op alphabet; a case is non-trivial when it has >=3 executed ops and reaches a namespace with >=2 members; distinct by full case content")
